@@ -78,12 +78,29 @@ func runC17(e *Env) error {
 		{"in-spaceless", "{% spaceless %}<a> {{ x|nosuchfilter }} </a>{% endspaceless %}", true},
 		{"in-apply", "{% apply upper %}{{ nosuchfn() }}{% endapply %}", true},
 		{"index-out-of-range", "{{ xs[9] }}", true},
+		// a library that fails while it is being imported: every top-level statement form, both import forms
+		{"import-lib-print-fails", "{% import 'libprint' as m %}x", true},
+		{"from-lib-print-fails", "{% from 'libprint' import ok %}x", true},
+		{"import-lib-do-fails", "{% import 'libdo' as m %}{{ m.ok() }}", true},
+		{"from-lib-do-fails", "{% from 'libdo' import ok %}{{ ok() }}", true},
+		{"import-lib-if-fails", "{% import 'libif' as m %}x", true},
+		{"from-lib-if-fails", "{% from 'libif' import ok %}x", true},
+		{"import-lib-for-fails", "{% import 'libfor' as m %}x", true},
+		{"import-lib-include-fails", "{% import 'libinc' as m %}x", true},
+		{"from-lib-include-fails", "{% from 'libinc' import ok %}x", true},
+		{"import-lib-apply-fails", "{% import 'libapply' as m %}x", true},
+		{"import-lib-block-fails", "{% from 'libblock' import ok %}x", true},
+		{"import-lib-set-fails", "{% import 'libset' as m %}x", true},
+		{"import-lib-nested-import-fails", "{% import 'libnest' as m %}x", true},
 		{"division-by-zero", "{{ 1 / 0 }}", true},
 		{"tolerated-undefined-variable", "a{{ undefinedvar }}b", false},
 		{"tolerated-undefined-attribute", "a{{ m1.nosuch }}{{ undefinedvar.x.y }}b", false},
 		{"tolerated-ignore-missing", "a{% include 'nosuch' ignore missing %}b", false},
 	}
-	libs := map[string]string{"lib": "{% macro ok() %}ok{% endmacro %}{% macro broken() %}{{ nosuchfn() }}{% endmacro %}", "base": "[{% block c %}base{% endblock %}]", "bad": "{{ 1|nosuchfilter }}"}
+	libs := map[string]string{"lib": "{% macro ok() %}ok{% endmacro %}{% macro broken() %}{{ nosuchfn() }}{% endmacro %}", "base": "[{% block c %}base{% endblock %}]", "bad": "{{ 1|nosuchfilter }}",
+		"libprint": "{% macro ok() %}ok{% endmacro %}{{ nosuchfn() }}", "libdo": "{% macro ok() %}ok{% endmacro %}{% do nosuchfn() %}", "libif": "{% macro ok() %}ok{% endmacro %}{% if true %}{{ 1|nosuchfilter }}{% endif %}",
+		"libfor": "{% macro ok() %}ok{% endmacro %}{% for i in [1] %}{{ 1 / 0 }}{% endfor %}", "libinc": "{% macro ok() %}ok{% endmacro %}{% include 'nosuch' %}", "libapply": "{% apply upper %}{{ nosuchfn() }}{% endapply %}{% macro ok() %}ok{% endmacro %}",
+		"libblock": "{% block b %}{{ nosuchfn() }}{% endblock %}{% macro ok() %}ok{% endmacro %}", "libset": "{% set q = nosuchfn() %}{% macro ok() %}ok{% endmacro %}", "libnest": "{% import 'libprint' as inner %}{% macro ok() %}ok{% endmacro %}"}
 	for _, tc := range table {
 		tpls := map[string]string{"main": tc.src}
 		for k, v := range libs {
